@@ -270,6 +270,16 @@ pub fn drive_c01(seed: u64, thorough: bool, out: &mut dyn Write) -> usize {
             rec(out, id, "macroerr", &src, json!({"noast": true}));
         }
     }
+    // ill-formed macros nested in the argument slots an enclosing macro inspects
+    let inner = ["has(m)", "x.all(1, y)", "y.filter(1, true)", "z.map(a.b, c)", "has(f(m))", "w.exists_one(2u, true)", "has(1)"];
+    for i1 in inner {
+        for outer in ["has(@)", "x.all(@, true)", "[1].map(@, 1)", "x.exists(@, true)", "x.filter(@, y)", "x.map(@, true, 1)", "x.exists_one(@, z)", "has(@.f)", "x.all(y, @)", "has(has(@))",
+                      "x.map(@, @)", "[@].all(@, 1)", "x.all(@,\n true)"] {
+            let src = outer.replace('@', i1);
+            id += 1;
+            rec(out, id, "macroerr", &src, json!({"noast": true}));
+        }
+    }
     let long = (0..680).map(|i| format!("a{}", i % 10)).collect::<Vec<_>>().join(" + ");
     id += 1;
     rec(out, id, "long", &long, json!({"noast": true}));
